@@ -379,6 +379,10 @@ func (e *Env) ident(name string) (SVal, error) {
 			return mkU(q(e.X.D.constOf(name, "U"))), nil
 		}
 	}
+	if strings.HasPrefix(name, "global_") && len(name) > 7 {
+		// a package-level variable of a dependency read by the code (io.EOF is written global_EOF)
+		return e.X.load(e.St, "global:"+strings.TrimPrefix(name, "global_"), types.Universe.Lookup("error").Type(), token.NoPos), nil
+	}
 	if strings.HasPrefix(name, "Err") && len(name) > 3 {
 		// package-level sentinel error
 		return e.X.load(e.St, "global:"+name, types.Universe.Lookup("error").Type(), token.NoPos), nil
